@@ -754,7 +754,153 @@ func cgReleaseFID(r *Repo, fd *ast.FuncDecl) (string, error) {
 	if cgExprString(r, fd.Body) == "{ if _, ok := err.(linux.Errno); ok { c.fidPool.Put(id) } }" {
 		return "refused", nil
 	}
+	// any other policy is reported as what it is (the obligation release_fid_policy = "refused" then fails and
+	// Fids.fid_run is instantiated with the recycling policy): guards that return, then an unconditional Put
+	if n := len(fd.Body.List); n >= 1 && cgExprString(r, fd.Body.List[n-1]) == "c.fidPool.Put(id)" {
+		var guards []string
+		for _, st := range fd.Body.List[:n-1] {
+			if is, ok := st.(*ast.IfStmt); ok && is.Else == nil && len(is.Body.List) == 1 {
+				if rs, ok := is.Body.List[0].(*ast.ReturnStmt); ok && len(rs.Results) == 0 {
+					guards = append(guards, cgExprString(r, is.Cond))
+					continue
+				}
+			}
+			if _, ok := st.(*ast.DeclStmt); ok {
+				continue
+			}
+			return "", r.Refuse(st.Pos(), "releaseFID: statement %s", cgExprString(r, st))
+		}
+		return "unless:" + strings.Join(guards, ";"), nil
+	}
 	return "", r.Refuse(fd.Pos(), "releaseFID body %s", cgExprString(r, fd.Body))
+}
+
+// cgWaitAndRecv reads the hand-over of the receive token: waitAndRecv must be
+//   for { select { case v := <-done: return v; case c.recvr <- true: BODY } }
+// and BODY a sequence of: <-c.recvr (release), c.handleOne() (handle), return, and polls
+// select { case v := <-done: ...; default: ... }.  Every path through BODY must release the token exactly once and
+// before it returns.  Result: does every path poll done AFTER taking the token and BEFORE handleOne (Mux: rck)?
+func cgWaitAndRecv(r *Repo, fd *ast.FuncDecl) (bool, error) {
+	refuse := func(n ast.Node, what string) (bool, error) {
+		return false, r.Refuse(n.Pos(), "waitAndRecv: %s", what)
+	}
+	if len(fd.Body.List) != 1 {
+		return refuse(fd, "body is not one statement")
+	}
+	fs, ok := fd.Body.List[0].(*ast.ForStmt)
+	if !ok || fs.Cond != nil || fs.Init != nil || fs.Post != nil || len(fs.Body.List) != 1 {
+		return refuse(fd, "not a bare for loop around one statement")
+	}
+	sel, ok := fs.Body.List[0].(*ast.SelectStmt)
+	if !ok || len(sel.Body.List) != 2 {
+		return refuse(fs, "loop body is not a two-way select")
+	}
+	isDoneRecv := func(st ast.Stmt) bool {
+		t := cgExprString(r, st)
+		return strings.HasSuffix(t, "<-done")
+	}
+	// paths through a statement list: each path is the sequence of tokens executed
+	var paths func(list []ast.Stmt) ([][]string, error)
+	paths = func(list []ast.Stmt) ([][]string, error) {
+		out := [][]string{{}}
+		for _, st := range list {
+			var alts [][]string
+			switch t := cgExprString(r, st); {
+			case t == "<-c.recvr":
+				alts = [][]string{{"release"}}
+			case t == "c.handleOne()":
+				alts = [][]string{{"handle"}}
+			case strings.HasPrefix(t, "return"):
+				alts = [][]string{{"return"}}
+			default:
+				s2, ok := st.(*ast.SelectStmt)
+				if !ok || len(s2.Body.List) != 2 {
+					return nil, r.Refuse(st.Pos(), "waitAndRecv: statement %s after taking the token", t)
+				}
+				for _, cl := range s2.Body.List {
+					cc := cl.(*ast.CommClause)
+					sub, err := paths(cc.Body)
+					if err != nil {
+						return nil, err
+					}
+					head := "nodone"
+					if cc.Comm != nil {
+						if !isDoneRecv(cc.Comm) {
+							return nil, r.Refuse(cc.Pos(), "waitAndRecv: inner select case %s", cgExprString(r, cc.Comm))
+						}
+						head = "done"
+					}
+					for _, p := range sub {
+						alts = append(alts, append([]string{head}, p...))
+					}
+				}
+			}
+			var next [][]string
+			for _, pre := range out {
+				if len(pre) > 0 && pre[len(pre)-1] == "return" {
+					next = append(next, pre)
+					continue
+				}
+				for _, a := range alts {
+					next = append(next, append(append([]string{}, pre...), a...))
+				}
+			}
+			out = next
+		}
+		return out, nil
+	}
+	var tokenBody []ast.Stmt
+	seenDone := false
+	for _, cl := range sel.Body.List {
+		cc := cl.(*ast.CommClause)
+		if cc.Comm == nil {
+			return refuse(cc, "outer select has a default case")
+		}
+		if t := cgExprString(r, cc.Comm); t == "c.recvr <- true" {
+			tokenBody = cc.Body
+		} else if isDoneRecv(cc.Comm) && len(cc.Body) == 1 && strings.HasPrefix(cgExprString(r, cc.Body[0]), "return") {
+			seenDone = true
+		} else {
+			return refuse(cc, "outer select case "+t)
+		}
+	}
+	if tokenBody == nil || !seenDone {
+		return refuse(sel, "outer select is not {<-done: return; recvr <- true: ...}")
+	}
+	ps, err := paths(tokenBody)
+	if err != nil {
+		return false, err
+	}
+	rechecks := true
+	for _, p := range ps {
+		rel, polled, handled := 0, false, false
+		for _, tk := range p {
+			switch tk {
+			case "release":
+				rel++
+			case "done", "nodone":
+				if !handled {
+					polled = true
+				}
+			case "handle":
+				if rel != 0 {
+					return refuse(sel, "handleOne without the token")
+				}
+				handled = true
+			case "return":
+				if rel != 1 {
+					return refuse(sel, "returns holding the token")
+				}
+			}
+		}
+		if rel != 1 {
+			return refuse(sel, "a path does not release the token exactly once")
+		}
+		if handled && !polled {
+			rechecks = false // handleOne is entered without having looked at done since the token was taken
+		}
+	}
+	return rechecks, nil
 }
 
 // cgNoComments: a private view of package p9 parsed WITHOUT comments, so that editing a comment changes no table.
@@ -873,6 +1019,16 @@ func runClientGen(r *Repo) (string, error) {
 	if err != nil {
 		return "", err
 	}
+	wr, ok := decls["Client.waitAndRecv"]
+	if !ok || wr.Body == nil {
+		return "", fmt.Errorf("Client.waitAndRecv not found")
+	}
+	cgCur = cgRoles(wr)
+	rck, err := cgWaitAndRecv(r, wr)
+	cgCur = nil
+	if err != nil {
+		return "", err
+	}
 	if rf := decls["Client.releaseFID"]; rf != nil {
 		cgCur = cgRoles(rf)
 	}
@@ -980,6 +1136,7 @@ Record gmethod := mkgm {
 	fmt.Fprintf(&b, "Definition sendrecv_keeps_withdrawn : bool := %v.\n", keep)
 	fmt.Fprintf(&b, "Definition handleone_checks_found : bool := %v.\n", chk)
 	fmt.Fprintf(&b, "(* the receiver remembers a ConnError: later calls fail without being registered *)\nDefinition recv_error_marks_dead : bool := %v.\n", marks)
+	fmt.Fprintf(&b, "(* waitAndRecv: after taking the receive token, done is polled again before handleOne is entered *)\nDefinition waitandrecv_rechecks_done : bool := %v.\n", rck)
 	fmt.Fprintf(&b, "Definition release_fid_policy : string := %s.\n\n", cgQ(rel))
 	for _, k := range []string{"Client.sendRecv", "Client.handleOne", "Client.waitAndRecv", "Client.releaseFID", "pool.Get", "pool.Put"} {
 		var qs []string
